@@ -102,6 +102,15 @@ def run_abort(case, chooser):
 
         def inject():
             state["sent"] = True
+            if case.get("spare"):
+                # the client opens the data connection for its *next* transfer just before it aborts this one (same
+                # passive port: the server keeps listening)
+                state["spare"] = None
+                if s.pasv_port is not None:
+                    try:
+                        state["spare"] = s.peer.connect(s.pasv_port, s.host)
+                    except ConnectionRefusedError:
+                        pass
             raw = bytes(s.ctl.p.total)[state["mark"]:]
             state["early"] = not any(line[:1] == b"1" for line in raw.split(b"\r\n") if line[:3].isdigit())
             s.ctl.send(b"ABOR\r\n")
@@ -151,8 +160,9 @@ def run_abort(case, chooser):
             problems.append({"kind": "abor-answer", "why": why, "codes": codes})
         # data connection closed by the server when a transfer had been started
         if any(c.startswith("1") for c in codes) and s.data is not None and not case.get("noread"):
+            spare_t = state["spare"].t if state.get("spare") is not None else None     # open on purpose
             mine = [t for t in w.net.all_transports if t.side == "server" and t.accepted and not t.closing
-                    and not t.closed and t.get_extra_info("sockname")[1] != 2121]
+                    and not t.closed and t.get_extra_info("sockname")[1] != 2121 and t.peer is not spare_t]
             if mine:
                 problems.append({"kind": "data-connection-open-after-abort", "codes": codes})
         # only a prefix delivered / stored
@@ -161,8 +171,9 @@ def run_abort(case, chooser):
         if case.get("noread") and any(c.startswith("1") for c in codes) and s.data is not None and not still_running:
             # the server must have *started* closing the data connection (it cannot finish while the peer's window
             # is closed); the ABOR must be answered all the same
+            spare_t = state["spare"].t if state.get("spare") is not None else None     # open on purpose
             mine = [t for t in w.net.all_transports if t.side == "server" and t.accepted and not t.closing
-                    and not t.closed and t.get_extra_info("sockname")[1] != 2121]
+                    and not t.closed and t.get_extra_info("sockname")[1] != 2121 and t.peer is not spare_t]
             if mine:
                 problems.append({"kind": "data-connection-open-after-abort", "codes": codes})
         if verb == "RETR" and s.data is not None:
@@ -207,6 +218,21 @@ def run_abort(case, chooser):
                 cs = [c for c, _ in (r or [])]
                 if cs != ["150", "226"] or s.data is None or s.data.received.count(b"\r\n") != 2:
                     problems.append({"kind": "followup-list", "codes": cs})
+            elif fu == "reuse":
+                # no new PASV/EPSV: the next transfer uses the connection made in advance
+                # (if the server turned that connection away the transfer is answered 425 and the session lives on)
+                d2 = state.get("spare")
+                if d2 is not None:
+                    s.data = d2
+                    r = rig.ev(0, "RETR f")
+                    cs = [c for c, _ in (r or [])]
+                    served = cs == ["150", "226"] and bytes(d2.received) == payload(size)
+                    if not (served or cs == ["425"]) or s.closed():
+                        problems.append({"kind": "followup-transfer-on-connection-made-in-advance", "codes": cs,
+                                         "data": bytes(d2.received).decode("latin-1"), "session_closed": s.closed()})
+                    r = rig.ev(0, "PWD")
+                    if [c for c, _ in (r or [])] != ["257"]:
+                        problems.append({"kind": "followup-pwd", "codes": [c for c, _ in (r or [])]})
             elif fu == "quit":
                 r = rig.ev(0, "QUIT")
                 if [c for c, _ in (r or [])] != ["221"] or not s.closed():
@@ -274,7 +300,16 @@ def build_items(tier):
                             items.append((case, bound, kinds))
                             if data_conn and verb in ("RETR", "LIST", "MLSD") and size in (B, 3 * B) and fu in ("pwd", "again"):
                                 items.append((dict(case, noread=True), 0, kinds))
-    # no transfer at all
+    # a second data connection made in advance for the next transfer, which then does without a new PASV/EPSV
+    for verb in ("RETR", "STOR", "LIST"):
+        size = 3 * B
+        probe = {"verb": verb, "size": size, "k": 10 ** 9, "backend": "memory", "followup": "pwd", "data_conn": True,
+                 "probe": True, "spare": True}
+        n = run_abort(probe, Chooser())["events"]
+        for k in range(1, n + 2):
+            case = {"verb": verb, "size": size, "k": k, "backend": "memory", "followup": "reuse", "data_conn": True,
+                    "spare": True}
+            items.append((case, 1 if tier != "quick" else 0, kinds))
     return items
 
 
@@ -313,7 +348,7 @@ def run(tier, seed, t0):
               "backends": ["memory", "slow(0.125s completion latency)"],
               "abort_positions": "k=0 (same segment as the verb) and after every network event k=1..N+1 counted from "
                                  "the transfer verb, with and without a data connection",
-              "followups": FOLLOWUPS, "data_peer": ["reading", "connected but not reading (RETR/LIST/MLSD)"], "deviation_bound": 1, "send_window": "lock-step", "cases": len(items)}
+              "followups": FOLLOWUPS + ["reuse: next transfer over a data connection made in advance, no new PASV"], "data_peer": ["reading", "connected but not reading (RETR/LIST/MLSD)"], "deviation_bound": 1, "send_window": "lock-step", "cases": len(items)}
     return report.finish(
         PID, tier, seed, "model_checking", part, t0,
         rule="case = (verb, size, abort position, backend, follow-up); every schedule with <= bound deviations from the "
